@@ -19,7 +19,7 @@ HR == {[k |-> "hr", algs |-> a, single |-> s, chunks |-> c, total |-> t, seed |-
           t \in {0, 1, 5, 130}, sr \in {"dataerr", "onebyte", "half"}}
 HRok == {v \in HR : v.single => Len(v.algs) = 1}
 Sources == {<<"sha256", "dsc256">>, <<"sha256", "best">>, <<"sha512", "best">>} \cup {<<a, "hasher">> : a \in Algs}
-RecordedKinds(alg) == {"equal", "upper", "unequal", "trunc_odd", "trunc_even", "empty_content_hash"} \cup
+RecordedKinds(alg) == {"equal", "upper", "unequal", "trunc_odd", "trunc_even", "empty_content_hash", "longer", "zero_padded"} \cup
                       {"other:" \o a : a \in Algs \ {alg}}
 Ver == UNION {{[k |-> "verifier", alg |-> s[1], source |-> s[2], recorded |-> r, len |-> n, chunks |-> c, seed |-> 5] :
                    r \in RecordedKinds(s[1]), n \in Lens, c \in {<<>>, <<1>>, <<64, 1>>}} : s \in Sources}
